@@ -1,9 +1,9 @@
 //! Included from /repo/src/naming/core.rs (inside `naming::core`, so the NamingActor's private methods are reachable) by a
 //! one-line hook that is inert unless cfg(kani) or cfg(rnacos_verif) is set.
 //! Native replay of engine-S histories of rs2smt/c11index.py (C11: namespace / group index and the clean-up of empty
-//! services) on a real `NamingActor` value. The timer step runs the body of `clear_empty_service` with the clock replaced by
-//! (real clock + the model's offset): `empty_service_set.timeout(now)` + `clear_one_empty_service(key, now)`; the oracles are
-//! safety properties that do not depend on the exact times (a service with an instance is never dropped; index == map).
+//! services) on a real `NamingActor` value in scaled real time (1 s of the model's clock grid = 20 ms, service time-out 600 ms
+//! instead of 30 s): the timer step sleeps until its grid point and runs the body of `clear_empty_service`
+//! (`empty_service_set.timeout(now)` + `clear_one_empty_service(key, now)`), registrations and removals read the real clock.
 #![allow(dead_code, unused_imports, clippy::all)]
 #[cfg(not(kani))]
 pub mod hist {
@@ -78,6 +78,10 @@ pub mod hist {
         let ip = Arc::new("1.1.1.1".to_string());
         let short = InstanceShortKey::new(ip.clone(), 1);
         let mut reference: BTreeSet<(String, String, String)> = BTreeSet::new();
+        // scaled real time: one second of the model's clock grid = SCALE ms, the service time-out 30 s = 30 * SCALE ms; an operation
+        // behind a timer round at grid point g runs at real time base + g * SCALE (registrations and removals read the real clock)
+        const SCALE: u64 = 20;
+        actor.sys_config.service_time_out_millis = 30 * SCALE;
         let base = now_millis();
         for (k, op) in hist["ops"].as_array().cloned().unwrap_or_default().iter().enumerate() {
             let name = op["op"].as_str().unwrap_or("");
@@ -102,7 +106,11 @@ pub mod hist {
                     reference.remove(&(key.namespace_id.to_string(), key.group_name.to_string(), key.service_name.to_string()));
                 }
                 "tick" => {
-                    let now = base + op["at_s"].as_u64().unwrap_or(0) * 1000;
+                    let now = base + op["at_s"].as_u64().unwrap_or(0) * SCALE;
+                    let real = now_millis();
+                    if now > real {
+                        std::thread::sleep(std::time::Duration::from_millis(now - real));
+                    }
                     for service_map_key in actor.empty_service_set.timeout(now) {
                         actor.clear_one_empty_service(service_map_key, now);
                     }
